@@ -34,12 +34,15 @@ def cases(draw, tier):
     spec = draw(gen.h5_table_specs(tier, allow_empty_axis=True, poke=True))
     writer = draw(st.sampled_from(["to_hdf5", "save_table", "to_hdf5",
                                    "convert"]))
-    if writer == "convert":
+    # where the table written comes from: built in memory, or itself loaded
+    # from a JSON / HDF5 document first
+    origin = draw(st.sampled_from(["memory"] * 4 + ["json", "hdf5"]))
+    if writer == "convert" or origin != "memory":
         # `convert` re-writes a *loaded* table; a loaded table keeps only the
         # text payload of group metadata (no data type), which to_hdf5 cannot
         # write again - outside what the property quantifies over
         spec["obs_gmd"] = spec["samp_gmd"] = None
-    return {"table": spec, "compress": draw(st.booleans()), "writer": writer,
+    return {"table": spec, "origin": origin, "compress": draw(st.booleans()), "writer": writer,
             "generated_by": draw(gen._H5TEXT1),
             "date": c01.date_to_json(draw(c01.DATES)),
             "sub": writer == "convert" and draw(st.sampled_from(SUB)),
@@ -76,11 +79,24 @@ def check(case, rec):
     import h5py
     spec = case["table"]
     t = gen.build_h5(spec, rec=rec)
-    lay = observe.layout(t)
     src = observe.snapshot(t)
     if not observe.all_finite(src):
         rec.skip("history overflowed to a non-finite value")
         return
+    origin = case.get("origin", "memory")
+    if origin != "memory" and src["obs"] and src["samp"] and \
+            case["writer"] != "convert":
+        import io
+        import biom
+        if origin == "json":
+            t = biom.parse.parse_biom_table(io.StringIO(t.to_json("vf")))
+        else:
+            with h5spec.mem_file() as f:
+                t.to_hdf5(f, "vf")
+                t = biom.Table.from_hdf5(f)
+        src = observe.snapshot(t)
+        rec.cls("origin:" + origin)
+    lay = observe.layout(t)
     n, m = len(src["obs"]), len(src["samp"])
     rec.cls("writer:" + case["writer"])
     rec.cls("empty-axis", n == 0 or m == 0)
